@@ -113,10 +113,14 @@ def check_pair(ctx, P, t, a, base=None):
                   lambda: {'got': [m.hex() for m in one], 'want': [m.hex() for m in base] + [M.hex()]})
         # the prefix and the message arrive in separate feed() calls (bytes and list chunks)
         for cont in (bytes, list):
-            p = Parser()
-            p.feed(cont(P))
-            p.feed(cont(enc))
-            two = list(p)
+            import copy
+            with gen.jumping_clocks():
+                p = Parser()
+                p.feed(cont(P))
+                if cont is list:
+                    p = copy.deepcopy(p)          # a checkpoint of the parser goes on where it was
+                p.feed(cont(enc))
+                two = list(p)
             ctx.check('parse(P+enc(M)) == parse(P)+[M]', two == base + [M], f'split-feed:{cont.__name__}:' + t, case,
                       lambda: {'got': [m.hex() for m in two], 'want': [m.hex() for m in base] + [M.hex()]})
         # poke the results and parse again: still the same
@@ -172,10 +176,11 @@ def check_rt_in_sysex(ctx, data, inserts):
         # the sysex arrives in two feed() calls, cut at every interior position
         for cut in range(1, len(stream)):
             for cont in (bytes, list):
-                p = Parser()
-                p.feed(cont(stream[:cut]))
-                p.feed(cont(stream[cut:]))
-                two = list(p)
+                with gen.jumping_clocks():
+                    p = Parser()
+                    p.feed(cont(stream[:cut]))
+                    p.feed(cont(stream[cut:]))
+                    two = list(p)
                 ctx.check('realtime inside sysex delivered first, sysex intact', two == want,
                           f'rt-in-sysex-split:{cont.__name__}', case,
                           lambda: {'cut': cut, 'stream': stream, 'got': [m.hex() for m in two]})
